@@ -79,6 +79,7 @@ inductive Gen where
   | perm (n : Nat)
   | custom (body : Prog)                    -- Custom(fn): fn as a Prog over the inner *T
   | deferred (g : Gen)
+  | asAny (g : Gen)                         -- g.AsAny()
   | runeFrom (runes : List Int)             -- RuneFrom(runes) without tables
   | stringOf (elem : Gen) (minRunes maxRunes maxLen : Int)
 deriving Inhabited
@@ -87,6 +88,9 @@ structure Env where
   ft : FT
   rt : RT
   fuel : Nat
+  /-- has `String()` been called on every generator before it is used (a generator's group is
+      labelled with its cached string, which is empty until then) -/
+  strAll : Bool := false
 
 def swapAt (l : List Val) (i j : Nat) : List Val :=
   let a := l.getD i .nil
@@ -95,41 +99,79 @@ def swapAt (l : List Val) (i j : Nat) : List Val :=
 
 def customFailMsg := "failed to find suitable value in 5 tries"
 
+/-- `String()` of a generator: the label of its standalone group.  Only equality of labels
+    matters (the shrinker's `sortGroups` swaps groups with equal labels); type names (`%T`) are
+    the ones of the harness, where every value type is `any` and every integer kind 64-bit. -/
+def Gen.label : Gen → String
+  | .bool => "Bool()"
+  | .uint a b => s!"Uint64Range({a.toNat}, {b.toNat})"
+  | .int a b => s!"Int64Range({a.toInt}, {b.toInt})"
+  | .sampled n => if n == 1 then "Just(0)" else s!"SampledFrom({n} int64)"
+  | .oneOf n g => "OneOf(" ++ ", ".intercalate ((List.range n).map fun i => (g i).label) ++ ")"
+  | .filter g _ => g.label ++ ".Filter(...)"
+  | .map g _ => "Map(" ++ g.label ++ ", func)"
+  | .slice e lo hi =>
+      if lo < 0 ∧ hi < 0 then s!"SliceOf({e.label})" else s!"SliceOfN({e.label}, minLen={lo}, maxLen={hi})"
+  | .distinct e lo hi _ =>
+      if lo < 0 ∧ hi < 0 then s!"SliceOfDistinct({e.label}, key=func)"
+      else s!"SliceOfNDistinct({e.label}, minLen={lo}, maxLen={hi}, key=func)"
+  | .mapOf k v lo hi =>
+      if lo < 0 ∧ hi < 0 then s!"MapOf({k.label}, {v.label})"
+      else s!"MapOfN({k.label}, {v.label}, minLen={lo}, maxLen={hi})"
+  | .mapOfValues v lo hi _ =>
+      if lo < 0 ∧ hi < 0 then s!"MapOfValues({v.label}, key=func)"
+      else s!"MapOfNValues({v.label}, minLen={lo}, maxLen={hi}, key=func)"
+  | .ptr e b => s!"Ptr({e.label}, allowNil={b})"
+  | .perm n => s!"Permutation({n} any)"
+  | .custom _ => "Custom(any)"
+  | .deferred _ => "Deferred(any)"
+  | .asAny g => g.label ++ ".AsAny()"
+  | .runeFrom rs => s!"Rune({rs.length} runes, 0 tables)"
+  | .stringOf e a b c =>
+      if a < 0 ∧ b < 0 ∧ c < 0 then s!"StringOf({e.label})"
+      else s!"StringOfN({e.label}, minRunes={a}, maxRunes={b}, maxLen={c})"
+
+/-- the label `Generator.value` gives its group: `g.str`, the cached `String()`, empty until
+    `String()` has been called on this generator.  Collections call `String()` on their element
+    generators before drawing (it is the label of the repeat), and `String()` formats the
+    sub-generators (`%v`), which caches theirs; nothing else does. -/
+def Gen.lbl (lab : Bool) (g : Gen) : String := if lab then g.label else ""
+
 /-- `Generator.value`: the standalone group around `impl.value` -/
-def wrapValue (body : Prog) : Prog := .group "*" true body (fun _ => false) .ret
+def wrapValue (label : String) (body : Prog) : Prog := .group label true body (fun _ => false) .ret
 
 /-- `impl.value` -/
-def Gen.body (e : Env) : Gen → Prog
-  | .bool => .draw 1 fun w => .ret (.bool (w == 1))
-  | .uint min max => uintRange e.ft min max true e.fuel fun u _ _ => .ret (uv u)
-  | .int min max => intRange e.ft min max e.fuel fun i _ _ => .ret (.int i.toInt)
-  | .sampled n => index e.ft n true e.fuel fun i => .ret (.int i)
-  | .oneOf n g => index e.ft n true e.fuel fun i => wrapValue ((g i).body e)
-  | .filter g p =>
-      findLoop ((wrapValue (g.body e)) >>- fun v => .ret (if p v then .cons v .nil else .nil))
+def Gen.body (e : Env) : Bool → Gen → Prog
+  | _, .bool => .draw 1 fun w => .ret (.bool (w == 1))
+  | _, .uint min max => uintRange e.ft min max true e.fuel fun u _ _ => .ret (uv u)
+  | _, .int min max => intRange e.ft min max e.fuel fun i _ _ => .ret (.int i.toInt)
+  | _, .sampled n => index e.ft n true e.fuel fun i => .ret (.int i)
+  | lab, .oneOf n g => index e.ft n true e.fuel fun i => wrapValue ((g i).lbl lab) ((g i).body e lab)
+  | lab, .filter g p =>
+      findLoop ((wrapValue (g.lbl lab) (g.body e lab)) >>- fun v => .ret (if p v then .cons v .nil else .nil))
         (fun r => r != .nil) (fun r => match r with | .cons v _ => .ret v | _ => .ret .nil) 5
-  | .map g f => (wrapValue (g.body e)) >>- fun v => .ret (f v)
-  | .slice elem minLen maxLen =>
-      let c : RCfg := ⟨normMin minLen, normMax maxLen, e.rt.rep (normMin minLen) (normMax maxLen), "*"⟩
-      repeatLoop c (fun acc => (wrapValue (elem.body e)) >>- fun v => .ret (rAcc (acc.snoc v))) .ret e.fuel {} .nil
-  | .distinct elem minLen maxLen key =>
-      let c : RCfg := ⟨normMin minLen, normMax maxLen, e.rt.rep (normMin minLen) (normMax maxLen), "*"⟩
-      repeatLoop c (fun acc => (wrapValue (elem.body e)) >>- fun v =>
+  | lab, .map g f => (wrapValue (g.lbl lab) (g.body e lab)) >>- fun v => .ret (f v)
+  | _, .slice elem minLen maxLen =>
+      let c : RCfg := ⟨normMin minLen, normMax maxLen, e.rt.rep (normMin minLen) (normMax maxLen), elem.label⟩
+      repeatLoop c (fun acc => (wrapValue elem.label (elem.body e true)) >>- fun v => .ret (rAcc (acc.snoc v))) .ret e.fuel {} .nil
+  | _, .distinct elem minLen maxLen key =>
+      let c : RCfg := ⟨normMin minLen, normMax maxLen, e.rt.rep (normMin minLen) (normMax maxLen), elem.label⟩
+      repeatLoop c (fun acc => (wrapValue elem.label (elem.body e true)) >>- fun v =>
           .ret (if acc.hasKey key (key v) then rRej else rAcc (acc.snoc v))) .ret e.fuel {} .nil
-  | .mapOf kg vg minLen maxLen =>
-      let c : RCfg := ⟨normMin minLen, normMax maxLen, e.rt.rep (normMin minLen) (normMax maxLen), "*"⟩
-      repeatLoop c (fun acc => (wrapValue (kg.body e)) >>- fun k => (wrapValue (vg.body e)) >>- fun v =>
+  | _, .mapOf kg vg minLen maxLen =>
+      let c : RCfg := ⟨normMin minLen, normMax maxLen, e.rt.rep (normMin minLen) (normMax maxLen), (kg.label ++ "," ++ vg.label)⟩
+      repeatLoop c (fun acc => (wrapValue kg.label (kg.body e true)) >>- fun k => (wrapValue vg.label (vg.body e true)) >>- fun v =>
           .ret (if acc.hasKey (fun kv => match kv with | .cons k' _ => k' | x => x) k then rRej
                 else rAcc (acc.snoc (.cons k v)))) .ret e.fuel {} .nil
-  | .mapOfValues vg minLen maxLen key =>
-      let c : RCfg := ⟨normMin minLen, normMax maxLen, e.rt.rep (normMin minLen) (normMax maxLen), "*"⟩
-      repeatLoop c (fun acc => (wrapValue (vg.body e)) >>- fun v =>
+  | _, .mapOfValues vg minLen maxLen key =>
+      let c : RCfg := ⟨normMin minLen, normMax maxLen, e.rt.rep (normMin minLen) (normMax maxLen), vg.label⟩
+      repeatLoop c (fun acc => (wrapValue vg.label (vg.body e true)) >>- fun v =>
           .ret (if acc.hasKey (fun kv => match kv with | .cons k' _ => k' | x => x) (key v) then rRej
                 else rAcc (acc.snoc (.cons (key v) v)))) .ret e.fuel {} .nil
-  | .ptr elem allowNil =>
+  | lab, .ptr elem allowNil =>
       coin (if allowNil then e.ft.coinHalf else thrAlways) fun nonNil =>
-        if nonNil then (wrapValue (elem.body e)) >>- fun v => .ret (.cons v .nil) else .ret .nil
-  | .perm n =>
+        if nonNil then (wrapValue (elem.lbl lab) (elem.body e lab)) >>- fun v => .ret (.cons v .nil) else .ret .nil
+  | _, .perm n =>
       let c : RCfg := ⟨0, n - 1, e.rt.perm, "permute"⟩
       -- acc = cons (int i) slice
       repeatLoop c (fun acc =>
@@ -140,27 +182,28 @@ def Gen.body (e : Env) : Gen → Prog
           | _ => .ret (rAcc acc))   -- unreachable: the accumulator always has this shape
         (fun acc => match acc with | .cons _ sl => .ret sl | _ => .ret .nil)
         e.fuel {} (.cons (.int 0) (Val.ofList ((List.range n).map fun (i : Nat) => Val.int (Int.ofNat i))))
-  | .custom body =>
+  | _, .custom body =>
       findLoop (.inner (.catchInv body fun o _ => .ret (match o with | some v => .cons v .nil | none => .nil)) .ret)
         (fun r => r != .nil) (fun r => match r with | .cons v _ => .ret v | _ => .ret .nil) 5
-  | .deferred g => wrapValue (g.body e)
-  | .runeFrom runes =>
+  | _, .deferred g => wrapValue (g.lbl e.strAll) (g.body e e.strAll)
+  | lab, .asAny g => wrapValue (g.lbl lab) (g.body e lab)
+  | _, .runeFrom runes =>
       dieRoll e.ft [0] e.fuel fun _ =>
         index e.ft runes.length true e.fuel fun i => .ret (.int (runes.getD i 0))
-  | .stringOf elem minRunes maxRunes maxLen =>
-      let c : RCfg := ⟨normMin minRunes, normMax maxRunes, e.rt.rep (normMin minRunes) (normMax maxRunes), "*"⟩
+  | _, .stringOf elem minRunes maxRunes maxLen =>
+      let c : RCfg := ⟨normMin minRunes, normMax maxRunes, e.rt.rep (normMin minRunes) (normMax maxRunes), elem.label⟩
       let maxB : Nat := normMax maxLen
-      repeatLoop c (fun acc => (wrapValue (elem.body e)) >>- fun v =>
+      repeatLoop c (fun acc => (wrapValue elem.label (elem.body e true)) >>- fun v =>
           .ret (match v with
             | .int r => match runeLen r with
               | some n => if acc.byteLen + n > maxB then rRej else rAcc (acc.snoc v)
               | none => rRej
             | _ => rRej)) .ret e.fuel {} .nil
 
-def Gen.value (e : Env) (g : Gen) : Prog := wrapValue (g.body e)
+def Gen.value (e : Env) (g : Gen) : Prog := wrapValue (g.lbl e.strAll) (g.body e e.strAll)
 
 /-- `g.Draw(t, label)`: value, then `t.draws++` -/
 def Gen.draw (e : Env) (g : Gen) (k : Val → Prog) : Prog :=
-  (wrapValue (g.body e)) >>- fun v => .tick (k v)
+  (wrapValue (g.lbl e.strAll) (g.body e e.strAll)) >>- fun v => .tick (k v)
 
 end Rapid
